@@ -80,6 +80,19 @@ def gen(rng, tier):
             tok += 1
             if k < 0.04:
                 burst.append(['off_reopen'])
+            elif k < 0.08:
+                # well-formed packets of the offender in ONE polling
+                # payload, handled back to back by the server: events
+                # followed by its own DISCONNECT (or CONNECT again)
+                ns = rng.choice(['/', '/b'])
+                pk = [[2, ns, rng.choice([None, 3]), ['ev', 'O%d' % tok, 1]]
+                      for _ in range(rng.randrange(1, 3))]
+                pk.append(rng.choice([[1, ns, None, None],
+                                      [1, ns, None, None],
+                                      [0, ns, None, None]]))
+                if rng.random() < 0.3:
+                    pk.append([2, ns, None, ['ev', 'O%db' % tok, 2]])
+                burst.append(['off_burst', pk])
             elif k < 0.5:
                 burst.append(['off', gen_offender_frame(rng, cfg['msgpack'])])
             elif k < 0.75:
@@ -334,7 +347,8 @@ def _run(case, cfg, w):
     for bi, burst in enumerate(case['ops']):
         mark = sc.mark()
         n_enter0 = len(w.rec.of('h_enter'))
-        burst_has_by = any(o[0] not in ('off', 'off_reopen') for o in burst)
+        burst_has_by = any(o[0] not in ('off', 'off_reopen', 'off_burst')
+                           for o in burst)
         rejected_only = True
         off_bytes = 0
         tainted_before = tainted[0]
@@ -355,6 +369,14 @@ def _run(case, cfg, w):
                         r['absorbed'] = True
                 tainted[0] = False
                 rejected_only = False
+            elif k == 'off_burst':
+                rejected_only = False
+                if sc.alive('off'):
+                    off.post_pkts([tuple(x) for x in o[1]])
+                    w.rec.count('fault.offender_polling_payload')
+                # it may have left / re-joined namespaces: no claim about
+                # what of its own input reaches its own handlers afterwards
+                tainted[0] = True
             elif k == 'off':
                 kind, payload = o[1]
                 frames = payload if kind == 'seq' else [payload]
